@@ -4,6 +4,7 @@ Correspondence: the same model at T := float (Run/RunSpline.v) against bsplev_si
 bspldnev_single_f64 through the harness (`rlharness spline`), bit patterns of every result."""
 import math
 from common import *  # noqa
+import props.c15 as c15
 
 RUN_TARGET = "theories/Run/RunSpline.vo"
 OPS = {"ev": 0, "dn": 1, "grid": 2}
@@ -294,6 +295,10 @@ def run(ctx):
     stats = {"bit_equal": 0, "bit_differs": 0}
     for ci, (c, mt, a, b) in enumerate(zip(cases, meta, impl, model)):
         compare_case(ctx, ci, c, mt, a, b, stats)
+    # one basis function at a Dual / Dual2 ABSCISSA (bsplev_single_dual(2): value B_i, slope B_i' dX, curvature) and the
+    # vector form PPSpline::bspldnev: the same derivatives the property speaks of, read through the AD path - at knots, at
+    # the right end point, outside the domain (generators and comparison shared with C15; model: Props/C15.v C15_basis_*)
+    c15.basis_stage(ctx, only=("evd", "vec"))
     for k, v in stats.items():
         ctx.count("result:" + k, v)
     ctx.notes.append("results bit-identical: %d, differing in bits but within 1e-9: %d" % (stats["bit_equal"], stats["bit_differs"]))
@@ -304,6 +309,8 @@ def run(ctx):
 
 
 def replay(ctx, rp):
+    if "basis_op" in rp:
+        return c15.replay(ctx, rp)
     build_harness()
     build_coq(coq_targets_for("C14") + [RUN_TARGET])
     c = rp["case"]
